@@ -200,7 +200,7 @@ Section Walk.
       [|lia].
     rewrite run_bind.
     rewrite (folders_ok E (P oid) _ (map item_of ch) w _ t n0 f Hs1 Hc (children_url_nonempty oid));
-      [|rewrite nreq_adv; lia | reflexivity | lia].
+      [|rewrite nreq_adv; lia | exact Ht | lia].
     rewrite adv_adv.
     set (l0 := api _ ++ api _).
     destruct (walk_folders_ok ch HF path w (adv s l0) t n0 f) as [l2 R2]; auto.
